@@ -15,8 +15,9 @@ The search loop is proved correct for **all texts** under two decidable conditio
 (`Complete`: every factor of the pattern, read backwards, is accepted; `Monotone`: every transition goes to a
 higher state, at most `m`, and a transition `q → q+1` is labelled with the `q`-th symbol of the reversed pattern).
 That the *construction* establishes them for every pattern is the factor-oracle theorem of Allauzen, Crochemore and
-Raffinot; it is **not** proved here — the driver evaluates both conditions on the model's table for every pattern of
-the correspondence run instead (so for each tested pattern the search is proved correct on all texts).
+Raffinot; it is proved in `RbV/Lemmas/BomOracle.lean` (`build_complete`, `build_monotone`, and the unconditional
+`findAll_eq_occurrences`). The driver still evaluates both conditions on the model's table for every pattern of the
+correspondence run, as a cross-check of model and proof.
 -/
 namespace RbV.Bom
 
@@ -335,7 +336,7 @@ theorem search_spec (p t : List Nat) (T : Table) (hp : 0 < p.length) (hC : Compl
       rintro s ⟨h1, h2, _⟩; omega
 
 /-- **BOM search is exact on every text** for every table that is `Complete` and `Monotone` for the pattern
-(both decidable; the driver checks them on the table built by the model for each tested pattern). -/
+(both decidable; both hold for the table of every pattern, see `RbV/Lemmas/BomOracle.lean`). -/
 theorem findAll_eq_occurrences_of_table (p t : List Nat) (hp : 0 < p.length)
     (hC : completeB (build p) p = true) (hM : monotoneB (build p) p.reverse = true) :
     findAll p t = occurrences p t := by
